@@ -48,6 +48,7 @@ type gen struct {
 	nextV       int
 	feat        map[string]int
 	avoidNested bool
+	fnDefers    []bool // function (transitively) installs defers
 }
 
 // body of function index fi (calls only to lower indices); inDeferred: we are (transitively) inside a deferred closure
@@ -72,7 +73,11 @@ func (g *gen) body(fi, depth int, closure, inDeferred bool, budget *int) []act {
 			if fi == 0 {
 				continue
 			}
-			out = append(out, act{Kind: "call", K: g.r.Intn(fi)})
+			tgt := g.r.Intn(fi)
+			if inDeferred && g.avoidNested && g.fnDefers[tgt] {
+				continue
+			}
+			out = append(out, act{Kind: "call", K: tgt})
 			g.feat["call"]++
 		case x < 76:
 			if depth >= 3 || (inDeferred && g.avoidNested) {
@@ -87,8 +92,12 @@ func (g *gen) body(fi, depth int, closure, inDeferred bool, budget *int) []act {
 			if fi == 0 || (inDeferred && g.avoidNested) {
 				continue
 			}
+			tgt := g.r.Intn(fi)
+			if g.avoidNested && g.fnDefers[tgt] {
+				continue
+			}
 			g.feat["defer-func"]++
-			out = append(out, act{Kind: "deferfn", K: g.r.Intn(fi)})
+			out = append(out, act{Kind: "deferfn", K: tgt})
 		case x < 86:
 			if depth >= 3 || (inDeferred && g.avoidNested) {
 				continue
@@ -187,13 +196,29 @@ func hasNested(as []act, inDef bool) bool {
 	return false
 }
 
+func (g *gen) installs(as []act) bool {
+	for _, a := range as {
+		switch a.Kind {
+		case "deferclo", "deferloop", "deferfn":
+			return true
+		case "call":
+			if g.fnDefers[a.K] {
+				return true
+			}
+		}
+	}
+	return false
+}
+
 func genProg(r *vh.Rng, avoidNested bool) *prog {
 	g := &gen{r: r, feat: map[string]int{}, avoidNested: avoidNested}
 	nf := 2 + r.Intn(3)
 	p := &prog{Feat: g.feat}
 	for fi := 0; fi < nf; fi++ {
 		budget := 6 + r.Intn(8)
-		p.Funcs = append(p.Funcs, g.body(fi, 0, false, false, &budget))
+		f := g.body(fi, 0, false, false, &budget)
+		p.Funcs = append(p.Funcs, f)
+		g.fnDefers = append(g.fnDefers, g.installs(f))
 	}
 	return p
 }
@@ -363,7 +388,7 @@ func main() {
 	rep := vh.NewReport(a, "random call trees of 2..4 functions func fN() (r int): emit / r = k / r += k / panic(v) / emit(500+fJ()) / defer closure (over r; may defer, panic, recover, call) / defer fJ() / "+
 		"defers in a loop / recover() directly / recover() one call deeper (must yield nil); oracle = the same source compiled by go1.23 (event trace, result, escaping panic value). "+
 		"Non-trivial: at least one panic is raised and at least one deferred call runs; distinct by SHA-256 of the source. "+
-		"While finding C07-1 (a panic raised and recovered inside a deferred call swallows the outer panic) is present, its exact input is replayed first and the generator does not install defers inside deferred calls.")
+		"While finding C07-1 (a panic raised and recovered inside a deferred call swallows the outer panic) is present, its exact input is replayed first and the generator lets no deferred call (transitively) install defers.")
 	wd := vh.NewWatchdog(rep, 60*time.Second)
 	n := 500
 	if a.Thorough() {
